@@ -134,6 +134,40 @@ pub fn run(tier: &str) -> i32 {
             acc
         })
         .reduce(Acc::new, Acc::merge);
+    // slices applied directly to the current node of a filter, consumed by count() and by a following segment:
+    // on [[[0],[1],...]] the queries `$[?count(@[s:e:st])==k]` give the size and `$[?count(@[s:e:st][?@==j])==1]`
+    // the membership of element j of the selection for every array length at once
+    let nested_all: Value = Value::Array((0..=maxlen).map(|n| Value::Array((0..n).map(|i| json!([i])).collect())).collect());
+    let nested_all_dc = DocCtx::new(&nested_all);
+    let stride = if run.thorough() { 1 } else { 3 };
+    let acc4 = cube
+        .par_iter()
+        .enumerate()
+        .filter(|(n, _)| n % stride == 0)
+        .map(|(_, (a, b, c))| {
+            let mut acc = Acc::new();
+            let f = |x: &Option<i64>| x.map(|v| v.to_string()).unwrap_or_default();
+            let sl = match c {
+                Some(_) => format!("{}:{}:{}", f(a), f(b), f(c)),
+                None => format!("{}:{}", f(a), f(b)),
+            };
+            let mut qs = vec![format!("$[?@[{}]]", sl), format!("$[?@[{}][0]]", sl), format!("$[?value(@[{}])==@[0]]", sl), format!("$[?@[{}][?@==0]]", sl)];
+            for k in 0..=3 {
+                qs.push(format!("$[?count(@[{}])=={}]", sl, k));
+                qs.push(format!("$[?count(@[{}][?@=={}])==1]", sl, k));
+            }
+            for q in qs {
+                let ast = crate::model::parse::rfc_parse(&q).unwrap_or_else(|e| panic!("C11 query {} must be valid: {:?}", q, e)).0;
+                let o = crate::watch::guarded(|| json!({"query": q, "doc": nested_all}).to_string(), || check_case(&run, &mut acc, &q, &ast, &nested_all_dc, Mode::Nodes, "slice on the current node of a filter"));
+                if let Outcome::Agree(n) = o {
+                    if n > 0 {
+                        acc.nontrivial += 1;
+                    }
+                }
+            }
+            acc
+        })
+        .reduce(Acc::new, Acc::merge);
     // index segments of singular queries (comparison operands): `$[?@[i]==j]`, `$[?$[k][i]==j]`, `$[?@[i]==@[i]]`
     let acc3 = idx
         .par_iter()
@@ -165,7 +199,7 @@ pub fn run(tier: &str) -> i32 {
             acc
         })
         .reduce(Acc::new, Acc::merge);
-    let acc = acc.merge(acc2).merge(acc3);
+    let acc = acc.merge(acc2).merge(acc3).merge(acc4);
     run.finish(
         acc,
         "one case = one (slice or index selector, array length, context) evaluated through query_with_path (and, at the root, through a programmatically built JpQuery); expected index sequence = RFC 9535 2.3.4.2.2 pseudo-code transcribed with 128-bit arithmetic; compared on node identity, order and path; non-trivial = at least one element is selected",
@@ -174,6 +208,6 @@ pub fn run(tier: &str) -> i32 {
             "termination: any single case exceeding a 20 s horizon is reported as a violation",
         ],
         true,
-        json!({"parameter_range": r, "max_array_length": maxlen, "contexts": ["root", "below name", "below wildcard", "descendant", "non-array", "index segment of a singular query in a comparison"]}),
+        json!({"parameter_range": r, "max_array_length": maxlen, "contexts": ["root", "below name", "below wildcard", "descendant", "non-array", "index segment of a singular query in a comparison", "slice on the current node of a filter (count / following segment)"]}),
     )
 }
